@@ -46,6 +46,72 @@ fn follow_raw(p: &Prepared, lines: &[String]) -> (String, String) {
     (status, String::from_utf8_lossy(&out).to_string())
 }
 
+/// the follow executor over a static file, counting how often it came back for more input (the retry hook; it answers "no more")
+fn follow_counting(p: &Prepared, lines: &[String]) -> (String, String, usize) {
+    let path = tmp_file(&join_lines(lines));
+    let retries = std::rc::Rc::new(std::cell::Cell::new(0usize));
+    let r2 = retries.clone();
+    set_follow_retry_hook(Some(Box::new(move || { r2.set(r2.get() + 1); false })));
+    let mut status = String::new();
+    let out = crate::c19::capture_stdout(|| {
+        let res = catch(|| -> Result<(), String> {
+            let file = File::open(&path).map_err(|_| "err:FailOpenFile".to_owned())?;
+            let display = DisplayOptions { output_format: OutputFormat::Text, single_result: false, print_result: true };
+            let engine = ExecutionEngine::new(&p.tables, &p.statement);
+            let mut executor = FollowFileExecutor::new(Arc::new(AtomicBool::new(true)), file, true, display, engine).map_err(|_| "err:Io".to_owned())?;
+            executor.execute().map_err(|e| format!("err:{}", exec_err_kind(&e)))
+        });
+        status = match res {
+            Caught::Done(Ok(())) => "ok".to_owned(),
+            Caught::Done(Err(e)) => e,
+            Caught::Panic(_) => "panic".to_owned(),
+        };
+    });
+    set_follow_retry_hook(None);
+    let _ = std::fs::remove_file(path);
+    (status, String::from_utf8_lossy(&out).to_string(), retries.get())
+}
+
+/// C07 in follow mode (`--follow --head`, the real `FollowFileExecutor`): a non-aggregate statement with LIMIT n over a file
+/// that ENDS with the line that produces the n-th row. The executor must print exactly the first n rows of the unlimited
+/// output and return — without coming back for more input (the retry hook is never asked): "consumes no input beyond the line
+/// that produced its n-th row (none at all for n = 0)".
+pub fn follow_limit_stream(run: &mut Run, rng: &mut Rng, n: usize) {
+    for _ in 0..n {
+        let sch = gen_schema(rng);
+        let limit = rng.below(4);
+        let filter = *rng.pick(&["", " WHERE v > 0", " WHERE w IS NOT NULL", " WHERE k = 'a' OR v < 5"]);
+        let distinct = if rng.chance(1, 4) { "DISTINCT " } else { "" };
+        let unlimited_text = format!("SELECT {}k, v FROM t{}", distinct, filter);
+        let text = format!("{} LIMIT {}", unlimited_text, limit);
+        let (p, pu) = match (prepare(&sch.defs, &text), prepare(&sch.defs, &unlimited_text)) { (Ok(a), Ok(b)) => (a, b), _ => { run.count("follow-limit:rejected"); continue; } };
+        let nl = rng.below(9);
+        let all = crate::c04::gen_input(rng, nl, 20, false);
+        // the shortest prefix of the lines whose unlimited output has `limit` rows (LIMIT 0: the empty prefix is enough,
+        // but lines are left in the file: none of them may be read)
+        let mut cut = None;
+        for k in 0..=all.len() {
+            let b = run_files(&pu, &[join_lines(&all[..k])]);
+            if b.status != "ok" { break; }
+            if b.records().len() >= limit { cut = Some(k); break; }
+        }
+        let k = match cut { Some(k) => k, None => { run.count("follow-limit:fewer-rows-than-limit"); continue; } };
+        let lines: Vec<String> = if limit == 0 { all.clone() } else { all[..k].to_vec() };
+        let want = run_files(&pu, &[join_lines(&all[..k])]);
+        let want_rows: Vec<String> = want.records().into_iter().take(limit).collect();
+        let (status, raw, retries) = follow_counting(&p, &lines);
+        run.oracle_checks += 1;
+        run.count(&format!("follow-limit:n{}", limit));
+        let desc = format!("sqlgrep --follow --head; query={} file={:?}", text, lines);
+        if status != "ok" { run.fail(desc, "follow-limit-fails", format!("the follow executor ends with {}", status)); continue; }
+        if records(&raw) != want_rows {
+            run.fail(desc, "follow-limit-output", format!("printed {:?}; the first {} rows of the unlimited output are {:?}", records(&raw), limit, want_rows));
+        } else if retries > 0 {
+            run.fail(desc, "follow-limit-reads-on", format!("the {} rows were printed, then the executor came back for more input {} time(s) instead of stopping at the line that produced row {}", limit, retries, limit));
+        }
+    }
+}
+
 fn records(text: &str) -> Vec<String> {
     text.split('\n').filter(|l| !l.is_empty()).map(|l| l.to_owned()).collect()
 }
